@@ -21,7 +21,7 @@ def run(ctx):
             ctx.exhaustive = False  # TLC stage exhaustive; the replayed behaviours are random walks
         # behaviours with the real arity 16: lengths crossing 16 and 256 (thorough: 4096), rewinds around the powers
         allb = ctx.behaviours("trie", "Gen_Hexary", "Gen_Hexary.cfg", constants={"MaxOps": wl, "Depth": wl},
-                              simulate="num=%d" % ctx.pick(100, 250), depth=wl + 1, seed=ctx.seed, timeout=ctx.pick(900, 3000),
+                              simulate="num=%d" % ctx.pick(70, 250), depth=wl + 1, seed=ctx.seed, timeout=ctx.pick(900, 3000),
                               javaopts="-Xss512m")
         if not ctx.quick():  # long accumulators: crossing 4096 = 16^3 (each TLC step evaluates thousands of adds)
             allb += ctx.behaviours("trie", "Gen_Hexary", "Gen_Hexary.cfg", simulate="num=25", depth=9, seed=ctx.seed + 5,
